@@ -413,3 +413,83 @@ func cutInsideFrame(c *Ctx, who string) {
 		}
 	}
 }
+
+// failingSource (F70): "however the source reader delivers it" — also a source that fails after it delivered a part of the
+// message (a pipe whose writer died, a file with an I/O error). Encrypt returns that error, seals nothing and counts no
+// frame: the next message opens at the peer under the next counter in line. (Before: the part was sealed and sent as if
+// it were the message, without an error.)
+type failingReader struct {
+	data []byte
+	err  error
+}
+
+func (f *failingReader) Read(b []byte) (int, error) {
+	if len(f.data) == 0 {
+		return 0, f.err
+	}
+	n := copy(b, f.data)
+	if len(b) > 7 && n > 7 {
+		n = 7 + len(f.data)%5 // short reads
+		if n > len(f.data) {
+			n = len(f.data)
+		}
+	}
+	f.data = f.data[n:]
+	return n, nil
+}
+
+func failingSource(c *Ctx, who string) {
+	for i := 0; i < c.Pick(8, 80); i++ {
+		id := c.CaseID("failing-source", i)
+		if c.Skip(id) {
+			continue
+		}
+		r := c.CaseRng("failing-source", i)
+		var shared [32]byte
+		copy(shared[:], randBytes(r, 32))
+		acc, err := crypto.NewSecureSessionFromSharedKey(shared)
+		if err != nil {
+			fatal("session: %v", err)
+		}
+		peer := newRefControllerSession(shared[:])
+		var sent []byte
+		var want []byte
+		before := r.Intn(3)
+		for k := 0; k < before; k++ {
+			m := randBytes(r, 1+r.Intn(1500))
+			rd, _ := acc.Encrypt(bytes.NewReader(m))
+			b, _ := ioutil.ReadAll(rd)
+			sent = append(sent, b...)
+			want = append(want, m...)
+		}
+		delivered := []int{0, 1, 500, 1023, 1024, 1025, 2048, 3000}[i%8]
+		srcErr := fmt.Errorf("read /dev/sensor: input/output error")
+		in := map[string]interface{}{"messages_encrypted_before": before, "the_source_delivers_bytes": delivered, "then_fails_with": srcErr.Error()}
+		rd, eerr := acc.Encrypt(&failingReader{data: randBytes(r, delivered), err: srcErr})
+		if eerr == nil {
+			n := 0
+			if rd != nil {
+				b, _ := ioutil.ReadAll(rd)
+				n = len(b)
+				sent = append(sent, b...)
+			}
+			c.Violate(who+": Encrypt reports no error although its source failed (what the source delivered before is sealed and sent as if it were the whole message)", id, in,
+				"the error of the source, nothing sealed", fmt.Sprintf("nil error, %d bytes of frames", n))
+		}
+		last := randBytes(r, 1+r.Intn(1500))
+		rd, eerr = acc.Encrypt(bytes.NewReader(last))
+		if eerr != nil {
+			c.Violate(who+": Encrypt fails after a call whose source failed", id, in, "frames", eerr.Error())
+			continue
+		}
+		b, _ := ioutil.ReadAll(rd)
+		sent = append(sent, b...)
+		want = append(want, last...)
+		pt, _, ok := peer.DecryptFrames(sent)
+		if eerr == nil && (!ok || !bytes.Equal(pt, want)) && c.NumViolations() == 0 {
+			c.Violate(who+": after an Encrypt whose source failed, the peer cannot decrypt the next message (a frame counter was used up)", id, in,
+				fmt.Sprintf("%d bytes", len(want)), fmt.Sprintf("%d bytes, authenticated=%v", len(pt), ok))
+		}
+		c.Count(id, true, "stream:failing-source", fmt.Sprintf("failing-source:delivered=%d", delivered))
+	}
+}
